@@ -50,6 +50,11 @@ impl<B: BaseFut> Trace for GenTrace<B> {
 /// auxiliary segment as the specification defines it; `corrupt` = (column, row) whose value is
 /// changed after construction (for negative tests)
 pub fn build_aux<B: BaseFut, E: FieldElement<BaseField = B>>(spec: &Spec, main: &ColMatrix<B>, rands: &[E], corrupt: Option<(usize, usize)>) -> ColMatrix<E> {
+    build_aux_delta(spec, main, rands, corrupt, 1)
+}
+
+/// as `build_aux`, the corrupted cell is changed by `delta` (a base-field value)
+pub fn build_aux_delta<B: BaseFut, E: FieldElement<BaseField = B>>(spec: &Spec, main: &ColMatrix<B>, rands: &[E], corrupt: Option<(usize, usize)>, delta: u128) -> ColMatrix<E> {
     let n = spec.n();
     let mut cols = vec![];
     for a in &spec.aux {
@@ -72,7 +77,7 @@ pub fn build_aux<B: BaseFut, E: FieldElement<BaseField = B>>(spec: &Spec, main: 
         cols.push(col);
     }
     if let Some((c, row)) = corrupt {
-        cols[c][row] += E::ONE;
+        cols[c][row] += E::from(B::from_int(delta));
     }
     ColMatrix::new(cols)
 }
@@ -81,12 +86,13 @@ pub struct GenProver<B: BaseFut, H: ElementHasher<BaseField = B>> {
     pub options: ProofOptions,
     pub spec: SpecRef,
     pub corrupt_aux: Option<(usize, usize)>,
+    pub aux_delta: u128,
     _h: PhantomData<H>,
 }
 
 impl<B: BaseFut, H: ElementHasher<BaseField = B>> GenProver<B, H> {
     pub fn new(spec: SpecRef, options: ProofOptions) -> Self {
-        GenProver { options, spec, corrupt_aux: None, _h: PhantomData }
+        GenProver { options, spec, corrupt_aux: None, aux_delta: 1, _h: PhantomData }
     }
 }
 
@@ -147,6 +153,6 @@ where
 
     #[maybe_async]
     fn build_aux_trace<E: FieldElement<BaseField = B>>(&self, main_trace: &GenTrace<B>, aux_rand_elements: &AuxRandElements<E>) -> ColMatrix<E> {
-        build_aux::<B, E>(&self.spec, main_trace.main_segment(), aux_rand_elements.rand_elements(), self.corrupt_aux)
+        build_aux_delta::<B, E>(&self.spec, main_trace.main_segment(), aux_rand_elements.rand_elements(), self.corrupt_aux, self.aux_delta)
     }
 }
